@@ -18,12 +18,12 @@ var c02TsBase int64 = 100
 func c02Event(t *rapid.T, label string, authors []string) *mocrelay.Event {
 	e := &mocrelay.Event{}
 	e.Pubkey = rapid.SampledFrom(authors).Draw(t, label+"pk")
-	e.Kind = rapid.SampledFrom([]int64{0, 1, 1, 5, 7, 10000, 20000, 30000}).Draw(t, label+"kind")
+	e.Kind = rapid.OneOf(rapid.SampledFrom([]int64{0, 1, 1, 5, 7, 10000, 20000, 30000}), rapid.SampledFrom([]int64{63, 64, 65, 127, 128, 255, 256, 1023, 1024, 65535})).Draw(t, label+"kind")
 	e.CreatedAt = c02TsBase + rapid.Int64Range(0, 6).Draw(t, label+"ts")
 	n := rapid.IntRange(0, 5).Draw(t, label+"ntags")
 	e.Tags = []mocrelay.Tag{}
 	for i := 0; i < n; i++ {
-		name := rapid.SampledFrom([]string{"e", "p", "t", "t", "E", "q", "nonce", "d"}).Draw(t, fmt.Sprintf("%stn%d", label, i))
+		name := rapid.SampledFrom([]string{"e", "p", "t", "t", "E", "q", "nonce", "d", "title", "emoji", "pp", "Ex", "qq"}).Draw(t, fmt.Sprintf("%stn%d", label, i))
 		ne := rapid.IntRange(1, 3).Draw(t, fmt.Sprintf("%stl%d", label, i))
 		tag := mocrelay.Tag{name}
 		if ne >= 2 {
